@@ -29,13 +29,13 @@ CHECKS = {
  'C11': dict(technique='explicit TLA+ contract (TraceXfer.tla over BDDState/BoolFun) checked by TLC on recorded two-manager executions',
    text='For all 36 pairs of source/target orders of 3 variables all 256 functions (and sampled functions over sampled pairs of the 576 order pairs of 4 variables) are copied by six routes (BDD.copy, dd.bdd.copy_bdd, dd.autoref.copy_bdd, dd.autoref.BDD.copy, dd._copy.copy_bdd, copy_bdds_from with a shared memo) into a target with an extra variable and pre-existing referenced nodes; copy_vars into empty/identical/conflicting managers. TLC checks, from the four recorded manager states of each transfer: same denotation by name, source tables identical, target canonical with exact counts, target held references unchanged. The in-manager copy recursion (_copy_bdd as rename) is model-checked in MC_Let2.',
    note=TRUST + 'No state-machine exploration of two managers: the contract is checked on recorded transfers only (the recursion itself is the one model-checked as CopyRename).', design='7 (C11)'),
- 'C12': dict(technique='explicit TLA+ contract (TraceXfer.tla) checked by TLC on recorded dump+load transfers',
+ 'C12': dict(category='exploration', technique='explicit TLA+ contract (TraceXfer.tla) checked by TLC on recorded dump+load transfers',
    text='Seeded dump/load cases (1-4 roots, list/dict, random signs, constants included; pickle with levels True/False, JSON with load_order True/False; into a fresh manager, the same manager, same order, different order, extra variable + pre-existing nodes; dump without roots; whole-manager pickle) are recorded with the states of source and receiver before/after; TLC checks roots denote the dumped functions by name under the same keys/positions, receiver canonical with exact counts (the JSON loader\'s temporary references gone), held references unchanged, and that loads inside the documented domain do not raise.',
    note=TRUST + 'Byte formats are not modelled: dump followed by load is one abstract transfer. Unreachable Function objects are finalised (gc.collect) before each snapshot.', design='7 (C12)'),
- 'C13': dict(technique='explicit TLA+ semantics (BoolFun!PreimageF/ImageF) checked by TLC on exhaustive/sampled sweeps of the real image/preimage',
+ 'C13': dict(category='exploration', technique='explicit TLA+ semantics (BoolFun!PreimageF/ImageF) checked by TLC on exhaustive/sampled sweeps of the real image/preimage',
    text='For one primed/unprimed pair EVERY relation x operand x quantified subset x quantifier x order, and for two pairs sampled relations/operands over every order of 4 variables, dd.bdd.image/preimage (names and levels) and dd.autoref.image/preimage are run on a manager holding all functions; TLC re-evaluates the documented preconditions and checks each result against the relational-product definition (rename, conjoin, quantify). The rename recursion and quantification used inside are model-checked in MC_Let2.',
    note=TRUST + 'Three pairs are not covered. Open known finding: preimage with a target that mentions a primed variable.', design='7 (C13)'),
- 'C18': dict(technique='explicit TLA+ contracts (Views rows of TraceSweep.tla: Shannon expansion, Reach, graph evaluation) checked by TLC on sweeps of the real code',
+ 'C18': dict(category='exploration', technique='explicit TLA+ contracts (Views rows of TraceSweep.tla: Shannon expansion, Reach, graph evaluation) checked by TLC on sweeps of the real code',
    text='For all functions of 3 variables in every order (4 variables sampled/thorough): Function.var/low/high/negated/level and BDD.succ must reproduce the function by Shannon expansion; descendants = reachability; len/dag_size = reachable count; the to_nx graph and the DOT text must contain exactly the reachable nodes with levels and EVALUATE (then/else edges, complement marks, ref layer) to the function of each root, as computed by TLC from the exported structure.',
    note=TRUST + 'The DOT text is parsed by a small trusted regular-expression reader in the harness.', design='7 (C18)'),
  'C14': dict(technique=TECH,
@@ -47,7 +47,7 @@ CHECKS = {
  'C15': dict(technique='explicit TLA+ specification of MDDs (MDD.tla: semantics, contracts, transcription of find_or_add/ite/collect_garbage) model-checked with TLC (MC_MDD) and used by TLC to validate recorded dd.mdd executions and bdd_to_mdd conversions (TraceMDD.tla)',
    text='MC_MDD explores the transcribed MDD algorithms (ternary + binary variable): canonical form (first edge regular), equal functions <=> equal references, exact counts, ite pointwise, collection exact. Seeded MDD histories (find_or_add, ite, all aliases of apply, incref/decref, collect_garbage over 2-3 integer variables of 2-4 values) and seeded bdd_to_mdd conversions (<= 6 bits in 1-3 integer variables, random integer and bit orders, 1-4 referenced functions of either sign) run on the real code; TLC evaluates every returned MDD reference on every integer assignment against the BDD on the encoded bits and checks the BDD functions intact.',
    note=TRUST + 'Plus the adapter for dd.mdd tables. Integer variables have 2^bits values.', design='7 (C15)'),
- 'C16': dict(technique='explicit TLA+ semantics of the abstract DDDMP file (TraceDDDMP.tla: FileDen by direct evaluation of the node list) checked by TLC against the manager returned by dd.dddmp.load',
+ 'C16': dict(category='exploration', technique='explicit TLA+ semantics of the abstract DDDMP file (TraceDDDMP.tla: FileDen by direct evaluation of the node list) checked by TLC against the manager returned by dd.dddmp.load',
    text='Seeded text-mode DDDMP files (1-3 roots of either sign over 1-5 support variables out of up to 8 declared, random children-before-parents numbering, gaps in permutation ids, with/without .orderedvarnames, varinfo 0/1/3) are written by the harness and loaded by the real dd.dddmp.load; TLC evaluates the file\'s node list directly (FileDen) and compares, by variable name, with the denotations of the returned roots computed from the returned manager\'s node table; every file node must be present; manager canonical; relative order kept.',
    note=TRUST + 'The DDDMP writer is a trusted ~80-line generator; the header grammar/lexer is not modelled (byte-level format is outside the technique).', design='7 (C16)'),
  'C17': dict(technique=TECH,
